@@ -108,7 +108,9 @@ let rec first_diff i a b =
 let zeq a b = (a : M.z) = b
 
 let spec prop inp out =
-  if prop <> "C08" then None else
+  (* C09: the sequential object of the linearizability claim is checked against the policy-agnostic
+     reference only (the eviction order, known finding F2, is C08's business) *)
+  if prop <> "C08" && prop <> "C09" then None else
   let (lim, mode, ops) = parse_input inp in
   if lim <= 0 || (mode <> "u" && mode.[0] = 'n') then None else
   let obs_s = if out = "" then [] else String.split_on_char ';' out in
@@ -135,8 +137,12 @@ let spec prop inp out =
     (* the property fixes the order of the victims of a Put; for Clear it only asks that every
        entry is reported once, so Clear's log is compared as a multiset *)
     let norm l = List.map2 (fun o (r, log) -> if o = M.OClear then (r, List.sort compare log) else (r, log)) ops l in
-    match first_diff 0 (norm obs) (norm want) with
+    match (if prop = "C09" then Some 0 else first_diff 0 (norm obs) (norm want)) with
     | None -> accounting (M.s2_states zeq M.Z0 sizeOf zlim [] ops)
+    | Some _ when prop = "C09" ->
+      (match M.s1_first_reject sizeOf zlim [] ops obs M.O with
+       | Some j -> Some (Printf.sprintf "call #%d %s is not a behaviour of any cache (wrong answer, value, accounting or callback)" (int_of_nat j) (show_op (List.nth ops (int_of_nat j))))
+       | None -> accounting (M.s1_states zeq M.Z0 sizeOf zlim [] ops obs))
     | Some i ->
       let o = List.nth ops i in
       let (r, log) = List.nth obs i and (r', log') = List.nth want i in
